@@ -157,8 +157,10 @@ func Add(api ClientApi) http.HandlerFunc {
 				return
 			}
 			w.Header().Set("Content-Type", "application/json")
+			// the status line and the Location header must go out before the body,
+			// and Location has to be an absolute URL for the client to follow it
+			http.Redirect(w, r, fmt.Sprintf("%s://%s", scheme, shards.Shards[shards.LeaderId].HTTPAddr), http.StatusMovedPermanently)
 			_, _ = w.Write(out)
-			http.Redirect(w, r, shards.Shards[shards.LeaderId].HTTPAddr, http.StatusMovedPermanently)
 			return
 		default:
 			http.Error(w, err.Error(), http.StatusPreconditionFailed)
@@ -244,8 +246,10 @@ func AddBulk(api ClientApi) http.HandlerFunc {
 				return
 			}
 			w.Header().Set("Content-Type", "application/json")
+			// the status line and the Location header must go out before the body,
+			// and Location has to be an absolute URL for the client to follow it
+			http.Redirect(w, r, fmt.Sprintf("%s://%s", scheme, shards.Shards[shards.LeaderId].HTTPAddr), http.StatusMovedPermanently)
 			_, _ = w.Write(out)
-			http.Redirect(w, r, shards.Shards[shards.LeaderId].HTTPAddr, http.StatusMovedPermanently)
 			return
 		default:
 			http.Error(w, err.Error(), http.StatusPreconditionFailed)
